@@ -12,7 +12,8 @@
      p_dates    snowfakery/template_funcs.py:52   @lru_cache(maxsize=512) parse_date
      p_dts      snowfakery/template_funcs.py:73   @lru_cache(maxsize=512) _parse_datetimespec
                   (since fix fc3a5e8 the uncached wrapper parse_datetimespec answers the keys "now"
-                  and "today" from the clock and never hands them to the cache)
+                  and "today" - and since bfa3786 Faker's relative specs -30d, +1y, -1w+2h ... -
+                  from the clock and never hands them to the cache)
      p_masks    snowfakery/utils/scrambled_numbers.py:7,12  @lru_cache() randomizer / mask_for_key
                   (memo tables of pure functions of their arguments; only their growth is modelled)
      p_rowhist  snowfakery/object_rows.py:13  RowHistoryCV = ContextVar("RowHistory"), set by
@@ -164,7 +165,66 @@ Inductive obs :=
 
 Record outcome := mkOut { o_obs : list obs; o_err : option err }.
 
-Definition is_clock_key (k : key) : bool := String.eqb k "now" || String.eqb k "today".
+(* Faker's relative syntax, faker.providers.date_time.Provider.regex fully matched:
+     ([+-]\d+y)?([+-]\d+M)?([+-]\d+w)?([+-]\d+d)?([+-]\d+h)?([+-]\d+m)?([+-]\d+s)?
+   i.e. signed numbers each followed by a unit, units in this order, each at most once.  ASCII
+   digits only (Python's \d also accepts other Unicode digits; the harness generates none). *)
+Definition is_digit (c : ascii) : bool :=
+  let n := nat_of_ascii c in (Nat.leb 48 n && Nat.leb n 57)%bool.
+
+Fixpoint skip_digits (l : list ascii) : list ascii :=
+  match l with
+  | c :: r => if is_digit c then skip_digits r else l
+  | [] => []
+  end.
+
+(* the units that may still follow after unit [u] *)
+Fixpoint units_after (u : ascii) (units : list ascii) : option (list ascii) :=
+  match units with
+  | [] => None
+  | x :: r => if Ascii.eqb x u then Some r else units_after u r
+  end.
+
+Definition rel_units : list ascii := ["y"; "M"; "w"; "d"; "h"; "m"; "s"]%char.
+
+(* every accepted group removes at least one unit from [units], so 8 rounds always suffice for
+   the 7 units: the fuel never runs out on a matching string *)
+Fixpoint rel_groups (fuel : nat) (units : list ascii) (l : list ascii) : bool :=
+  match fuel with
+  | O => false
+  | S f =>
+    match l with
+    | [] => true
+    | c :: r =>
+      if (Ascii.eqb c "+" || Ascii.eqb c "-")%char then
+        match r with
+        | d :: _ =>
+          if is_digit d then
+            match skip_digits r with
+            | u :: rest =>
+              match units_after u units with
+              | Some units' => rel_groups f units' rest
+              | None => false
+              end
+            | [] => false
+            end
+          else false
+        | [] => false
+        end
+      else false
+    end
+  end.
+
+(* `isinstance(d, str) and d and DateProvider.regex.fullmatch(d)` *)
+Definition is_relative_spec (k : key) : bool :=
+  match list_ascii_of_string k with
+  | [] => false
+  | l => rel_groups 8 rel_units l
+  end.
+
+(* keys that parse_datetimespec answers from the clock, before the cache is consulted *)
+Definition is_clock_key (k : key) : bool :=
+  String.eqb k "now" || String.eqb k "today" || is_relative_spec k.
 
 Section Run.
   (* dateutil (and the isinstance branches) behind parse_date / parse_datetimespec for keys that
@@ -218,6 +278,8 @@ Section Run.
     | ODatetime k =>
       if String.eqb k "now" then (p, Ok (s, [BVal (e_now e)]))          (* not cached *)
       else if String.eqb k "today" then (p, Ok (s, [BVal (e_today e)]))
+      else if is_relative_spec k then (p, Ok (s, [BVal (e_now e)]))     (* now + offset: the harness
+                                                       subtracts the offset before locating the value *)
       else
         let '(c, r) := lru_call date_cache_size parse_dt (p_dts p) k in
         (set_dts p c, match r with Some v => Ok (s, [BVal v]) | None => Err dge end)
